@@ -23,6 +23,7 @@ type gen struct {
 	hot     any // last written shared object (*mGlobal, *mTable, *mMem)
 	hotBy   string
 	hotSlot int // table slot written by the last tsetf (-1: none)
+	zombies []zombie
 }
 
 func (g *gen) n(lo, hi int, label string) int { return rapid.IntRange(lo, hi).Draw(g.t, label) }
@@ -92,15 +93,24 @@ func (g *gen) candidates() (by [4][]cand) {
 	for _, name := range g.m.order {
 		in := g.m.live[name]
 		for i, f := range in.funcs {
+			if !in.spec.exported(kFunc, i) {
+				continue
+			}
 			by[kFunc] = append(by[kFunc], cand{name, fmt.Sprintf("f%d", i), extern{kind: kFunc, f: f}})
 		}
 		for i, t := range in.tables {
+			if !in.spec.exported(kTable, i) {
+				continue
+			}
 			by[kTable] = append(by[kTable], cand{name, fmt.Sprintf("t%d", i), extern{kind: kTable, t: t}})
 		}
-		if in.mem != nil {
+		if in.mem != nil && in.spec.exported(kMem, 0) {
 			by[kMem] = append(by[kMem], cand{name, "mem", extern{kind: kMem, m: in.mem}})
 		}
 		for i, gl := range in.globals {
+			if !in.spec.exported(kGlobal, i) {
+				continue
+			}
 			by[kGlobal] = append(by[kGlobal], cand{name, fmt.Sprintf("g%d", i), extern{kind: kGlobal, g: gl}})
 		}
 	}
@@ -335,6 +345,7 @@ func (g *gen) genSpec(k int) *ModSpec {
 			}
 		}
 		im := g.importOf(c, i == badIdx)
+		im.NoExport = g.pct(45, "import-not-re-exported")
 		if im.Kind == kMem {
 			if hasMemImport {
 				continue
@@ -658,7 +669,48 @@ func (g *gen) instStep(specIdx int, as string, bytesPct int) {
 		g.m.reject()
 		return
 	}
-	g.m.run(p)
+	if g.m.run(p) == "ok" {
+		return
+	}
+	// The failed instance may have left its functions in imported tables: they must stay callable
+	// however much later, also after the collector has run and other modules were compiled.
+	in := p.inst
+	for ti := 0; ti < in.v.nIT; ti++ {
+		t := in.tables[ti]
+		for slot, r := range t.fn {
+			if r != nil && r.f.def == in {
+				g.zombies = append(g.zombies, zombie{t, slot, r.f.sig})
+			}
+		}
+	}
+	if g.pct(35, "gc-after-failure") {
+		g.c.Script = append(g.c.Script, Step{Op: "gc"})
+	}
+}
+
+type zombie struct {
+	t    *mTable
+	slot int
+	sig  int
+}
+
+// zombieCall calls a slot that a failed instance filled, through any live instance seeing the table.
+func (g *gen) zombieCall() bool {
+	z := pick(g, g.zombies, "zombie")
+	var via []*mInst
+	for _, n := range g.m.order {
+		if x := g.m.live[n]; indexOf(x, z.t) >= 0 {
+			via = append(via, x)
+		}
+	}
+	if len(via) == 0 {
+		return false
+	}
+	in := pick(g, via, "zombie-caller")
+	st := Step{Op: "acc", Inst: in.name, Acc: pick(g, []string{"tcall", "tcall", "rtcall"}, "zombie-call-form"), Idx: indexOf(in, z.t), Sig: z.sig, Args: []uint64{uint64(z.slot)}}
+	g.c.Script = append(g.c.Script, st)
+	g.m.eval(st)
+	return true
 }
 
 // indexOf finds the index at which instance in sees the object obj (-1 if it does not).
@@ -777,7 +829,11 @@ func (g *gen) argsFor(in *mInst, st *Step) {
 func hostOps(in *mInst) []accInfo {
 	var out []accInfo
 	for i, t := range in.v.gt {
-		out = append(out, accInfo{"hgget", i, 0}, accInfo{"higet", i, 0})
+		out = append(out, accInfo{"higet", i, 0})
+		if !in.spec.exported(kGlobal, i) {
+			continue
+		}
+		out = append(out, accInfo{"hgget", i, 0})
 		if t.mut && t.vt != wasmenc.FuncRef && t.vt != wasmenc.V128 {
 			out = append(out, accInfo{"hgset", i, 0}, accInfo{"hgset", i, 0})
 		}
@@ -791,7 +847,9 @@ func hostOps(in *mInst) []accInfo {
 		out = append(out, accInfo{"hm8", 0, 0}, accInfo{"hm32", 0, 0}, accInfo{"hmw8", 0, 0}, accInfo{"hmw8", 0, 0}, accInfo{"hmsize", 0, 0})
 	}
 	for i := range in.funcs {
-		out = append(out, accInfo{"hfcall", i, 0})
+		if in.spec.exported(kFunc, i) {
+			out = append(out, accInfo{"hfcall", i, 0})
+		}
 	}
 	return out
 }
@@ -1008,7 +1066,8 @@ func genCase(t *rapid.T) *Case {
 			}
 			g.instStep(k, as, 10) // mostly the same CompiledModule instantiated again
 		case g.pct(10, "sibling-call") && g.siblingCall():
-		case g.pct(2, "gc"):
+		case len(g.zombies) > 0 && g.pct(15, "zombie-call") && g.zombieCall():
+		case g.pct(3, "gc"):
 			g.c.Script = append(g.c.Script, Step{Op: "gc"})
 		default:
 			g.accStep()
